@@ -31,6 +31,15 @@ CONFIG = {
 }
 
 PRELUDE_EXTRA = """
+class _Handle:
+    # a user's own value class with identity equality (two handles are equal only if they are one object)
+    def __copy__(self):
+        return _Handle()
+
+
+_HANDLE = _Handle()
+
+
 class {P}Color(enum.Enum):
     RED = 1
     GREEN = "g"
@@ -113,6 +122,7 @@ def child_pool(P):
 PROP_POOL = [
     ("int", "int", "0"), ("str", "str", '""'), ("bool", "bool", "False"), ("float", "float", "0.0"), ("ostr", "str | None", "None"),
     ("tint", "tuple[int, ...]", "()"), ("lit", 'Literal["a", "b", 1]', '"a"'),
+    ("handle", "Any", "_HANDLE"), ("handle", "Any", "_HANDLE"),  # an opaque handle (identity equality): accessors hand out the object itself
 ]
 NAMES = ["a", "b", "c", "d", "e", "f", "g", "h", "child", "items", "root", "zz", "aa", "m", "k", "_hidden", "id_", "value"]
 
